@@ -184,14 +184,14 @@ class Model:
         k = t["kind"]
         if k in ("or", "and", "tuple"):
             for i, it in enumerate(t["items"]):
-                yield from self.iter_subtypes(f"{locus}/{i}", it)
+                yield from self.iter_subtypes(f"{locus}|{i}", it)
         elif k == "array":
-            yield from self.iter_subtypes(f"{locus}/[]", t["element"])
+            yield from self.iter_subtypes(f"{locus}|[]", t["element"])
         elif k == "map":
-            yield from self.iter_subtypes(f"{locus}/{{}}", t["value"])
+            yield from self.iter_subtypes(f"{locus}|{{}}", t["value"])
         elif k == "literal":
             for p in t["value"]["properties"]:
-                yield from self.iter_subtypes(f"{locus}/.{p['name']}", p["type"])
+                yield from self.iter_subtypes(f"{locus}|.{p['name']}", p["type"])
 
     def union_occurrences(self) -> List[Tuple[str, dict]]:
         out = []
